@@ -48,14 +48,22 @@ def programs_for(ctx):
             progs.append(("gen:%d" % i, p))
     # a stream (mostly) inside the proved fragment (Frag.frag2): one crossing of plain factors, free factors,
     # Repeat / MinimumTrials for several rounds and a leftover round, exclusions and constraints by rejection,
-    # every third one with weighted levels / a crossing weight; some MultiCrossBlocks (further crossings by rejection)
+    # every third one with weighted levels / a crossing weight; some MultiCrossBlocks (further crossings by rejection);
+    # every fourth one with within-trial derived factors
     nfrag = 40 if ctx.quick else 300
     j = 0
     tries = 0
     while j < nfrag and tries < 50 * nfrag:
         tries += 1
-        p = gen_design.gen_program(ctx.rng, 3000, shape=ctx.rng.choice(["cross", "cross", "repeat", "multi"]),
-                                   features={"derived": False, "weighted_p": 0.5 if j % 3 == 2 else 0.0})
+        if j % 4 == 3:
+            # every fourth program: within-trial derived factors (in the sampled crossing or not) over plain factors
+            p = gen_design.gen_program(ctx.rng, 3000, shape=ctx.rng.choice(["cross", "cross", "repeat"]),
+                                       features={"derived": True, "wtype": "within", "weighted_p": 0.0})
+            if p is not None and not any(f["kind"] == "derived" for f in p["factors"]):
+                continue
+        else:
+            p = gen_design.gen_program(ctx.rng, 3000, shape=ctx.rng.choice(["cross", "cross", "repeat", "multi"]),
+                                       features={"derived": False, "weighted_p": 0.5 if j % 3 == 2 else 0.0})
         if p is None:
             continue
         if j % 2 == 0:
@@ -371,7 +379,7 @@ def run(ctx, res):
         "generated_in_frag1": gen_thm.get("frag1", 0), "generated_in_frag0": gen_thm.get("frag0", 0),
         "share_of_generated_in_frag2": share("frag2"), "share_of_generated_in_frag1": share("frag1"),
         "share_of_generated_in_frag0": share("frag0"),
-        "note": "frag2 = Frag.frag2 (Properties/C04-C07 *_frag2; weights, further crossings), it contains Frag.frag1 (the *_partial theorems) which "
+        "note": "frag2 = Frag.frag2 (Properties/C04-C07 *_frag2; weights, further crossings, implied factors, within-trial derived factors in the sampled crossing), it contains Frag.frag1 (the *_partial theorems) which "
                 "contains the first fragment Frag.frag0; shares are over the gen_design.gen_program stream only (programs the "
                 "constructors reject count as outside); for the designs inside the fragment the executable statements of the "
                 "theorems - and the side condition FragSem.enumerates_b of the frag2 completeness / count theorems - were also "
